@@ -45,12 +45,15 @@ func compile(t *testing.T, pattern string, opts uint16) *regexp2.Regexp {
 	return re
 }
 
-var seeds = []string{`a(b|c)*d`, `(?<n>\w+)\s\k<n>`, `^(?:(?<o>\()|(?<-o>\))|[^()])*(?(o)(?!))$`, `[a-z-[aeiou]]+`, `(?i)\bfoo\b`, `(?=a)a+?b{2,3}`, `\p{Lu}\P{Ll}[[:alpha:]]`, `(?(?=x)x|y)`, `\G(?<=a)b`, `(a*)*$`}
+var seeds = []string{`a(b|c)*d`, `(?<n>\w+)\s\k<n>`, `^(?:(?<o>\()|(?<-o>\))|[^()])*(?(o)(?!))$`, `[a-z-[aeiou]]+`, `(?i)\bfoo\b`, `(?=a)a+?b{2,3}`, `\p{Lu}\P{Ll}[[:alpha:]]`, `(?(?=x)x|y)`, `\G(?<=a)b`, `(a*)*$`,
+	// witnesses of repaired defects (D36, D30, D6)
+	`(?<A>(?<A-A>x){2}n)(?<A>A)`, `(?<o-c>\()+[^()]*(?<c>\))+`, `\p{wb}`, `,`}
 
 func FuzzCompileMatch(f *testing.F) {
 	for _, s := range seeds {
 		f.Add(s, "aab abc xyz", uint16(0))
 		f.Add(s, "(a(b)c)", uint16(0x41))
+		f.Add(s, "xxnA ((ab))", uint16(0x40))
 	}
 	f.Fuzz(func(t *testing.T, pattern, input string, opts uint16) {
 		re := compile(t, pattern, opts)
